@@ -301,7 +301,22 @@ fn module_symbols(arch: Arch, os: OsKind, m: &ModSpec, adversarial: bool) -> (Ve
         }
         let size = stride - if i % 3 == 0 { 0 } else { 8 };
         let params = if arch == Arch::X86 { (i % 4) * 4 } else { 0 };
-        s.push_str(&format!("FUNC {:x} {:x} {:x} fn_{}_{}\n", addr, size, params, leaf.replace(' ', "_"), i));
+        // function names: plain identifiers, and C++/Rust-style signatures with parameter lists
+        // (argument recovery parses those), nested templates and non-ASCII text
+        const SIGS: [&str; 10] = [
+            "ns::Klass::method(int, char const*)",
+            "Fenster::setze(Gr\u{f6}\u{df}e, int)",
+            "\u{63cf}\u{753b}(\u{5e45}, \u{9ad8}\u{3055})",
+            "std::map<int, std::pair<int, int> >::find(int const&)",
+            "operator()(void)",
+            "f(,)",
+            "g((int, int), x)",
+            "<T as core::fmt::Debug>::fmt(&self, &mut Formatter<'_>)",
+            "weird)name(",
+            "h(\u{1f980}, \u{e9}\u{e9}\u{e9}\u{e9}, a, b, c, d, e, f, g, h, i, j)",
+        ];
+        let fname = if i % 3 == 2 { format!("{} [{}]", SIGS[(i as usize / 3) % SIGS.len()], i) } else if i % 7 == 3 { format!("{}", SIGS[(i as usize) % SIGS.len()]) } else { format!("fn_{}_{}", leaf.replace(' ', "_"), i) };
+        s.push_str(&format!("FUNC {:x} {:x} {:x} {}\n", addr, size, params, fname));
         if i % 2 == 0 {
             if i % 4 == 0 {
                 s.push_str(&format!("INLINE 0 {} 0 0 {:x} {:x}\n", 10 + i, addr + 4, 8));
@@ -1091,4 +1106,29 @@ fn patch_exception_context(dump: &mut [u8], tid: u32) {
             return;
         }
     }
+}
+
+/// A minimal valid dump (one thread, a small stack, no modules) with a 32- or 64-bit CPU:
+/// the "previous job" a long-lived worker thread may have rendered before the world under test.
+pub fn tiny_dump(width64: bool) -> Vec<u8> {
+    let e = Endian::Little;
+    let arch = if width64 { Arch::Amd64 } else { Arch::X86 };
+    let mut rng = Xoshiro::new(7);
+    let r = Regs { ip: 0x1234_5678, sp: 0x1000, fp: 0x1008, lr: 0, near: None };
+    let ctx = context_section(arch, &r, &mut rng, false);
+    let stack = Memory::with_section(Section::with_endian(e).append_repeated(0, 0x40), 0x1000);
+    let thread = Thread::new(e, 1, &stack, &ctx);
+    let si = SystemInfo::new(e).set_processor_architecture(arch.processor_architecture()).set_platform_id(OsKind::Linux.platform_id());
+    let mut ex = Exception::new(e);
+    ex.thread_id = 1;
+    ex.exception_record.exception_code = 11;
+    ex.exception_record.exception_address = 0x45;
+    SynthMinidump::with_endian(e)
+        .add_thread(thread)
+        .add_system_info(si)
+        .add_exception(ex)
+        .add(ctx)
+        .add_memory(stack)
+        .finish()
+        .expect("tiny dump")
 }
